@@ -115,6 +115,12 @@ spec("C01_micro", "The bound on the total under every interleaving of the micro 
 spec("C16_micro", "Key and weight balances at every state of every micro schedule, all windows included", [M, "MicroBal"], [
     ("MicroBal", "mbal_step", None), ("MicroBal", "micro_balances_run", None),
 ])
+spec("C10_micro", "Sweeps at every state of every interleaving of micro steps", [M, "MicroBound"], [
+    ("MicroBound", "micro_sweep_spares", None),
+])
+spec("C03_micro", "No spurious loss through a sweep at any state of any interleaving of micro steps", [M, "MicroBound"], [
+    ("MicroBound", "micro_sweep_spares", None), (M, "minv_run", None),
+])
 spec("C15_micro", "Hit accounting with reads split between the store lookup and the access record", [M, "MicroStats"], [
     ("MicroStats", "micro_hits_accounted_run", None), ("MicroStats", "read_in_flight_witness", None), (M, "mcall_atomic", None),
 ])
